@@ -50,14 +50,8 @@ func (f *Frame) call(st *State, call *ast.CallExpr) []Term {
 	}
 	fn := f.callee(call)
 	if fn == nil {
-		// closure call through a local variable
-		if id, ok := ast.Unparen(call.Fun).(*ast.Ident); ok {
-			if obj := info.Uses[id]; obj != nil {
-				if lit, ok := f.closures[obj]; ok {
-					return f.inlineLit(st, lit, call)
-				}
-			}
-		}
+		// call through a function value: inlined when the value is a known literal (looked up by its term,
+		// so that different branches keep their own literal), uninterpreted otherwise
 		return f.funcValueCall(st, call)
 	}
 	// well-known library models built into the translator
@@ -267,6 +261,10 @@ func (f *Frame) callByContract(st *State, fi *FuncInfo, args []Term, tsub map[*t
 		vc.fail(pos, "call of %s by contract under a quantifier is not supported", fi.Key)
 	}
 	vc.callN[fi.Key]++
+	if vc.usedContracts == nil {
+		vc.usedContracts = map[string]bool{}
+	}
+	vc.usedContracts[fi.Key] = true
 	site := fmt.Sprintf("call.%s#%d", fi.Key, vc.callN[fi.Key])
 	pre := st.clone()
 	env := bindSpec(sp, args, nil)
@@ -808,6 +806,8 @@ func (f *Frame) vsCall(st *State, name string, call *ast.CallExpr) []Term {
 			}
 			return And(cs...)
 		})}
+	case "SameFunc", "SameMap":
+		return []Term{Eq(f.expr(st, call.Args[0]), f.expr(st, call.Args[1]))}
 	case "SameBytes", "SameSlice":
 		return []Term{Eq(f.expr(st, call.Args[0]), f.expr(st, call.Args[1]))}
 	case "ForallString2", "ForallString3":
@@ -1174,6 +1174,25 @@ type closureInfo struct {
 	fr  *Frame
 }
 
+// namedFuncValue: a declared function used as a value. It gets a constant identity; if it has a
+// contract, calling it through the value is a call by contract (see funcValueCall).
+func (f *Frame) namedFuncValue(st *State, fn *types.Func) Term {
+	vc := f.vc
+	name := "fn_" + mangle(funcKey(fn))
+	if !vc.declared[name] {
+		vc.declared[name] = true
+		vc.script = append([]string{fmt.Sprintf("(declare-const %s Int)", name), fmt.Sprintf("(assert (not (= %s 0)))", name)}, vc.script...)
+		for _, o := range vc.obls {
+			o.ScriptLen += 2
+		}
+	}
+	if vc.namedFns == nil {
+		vc.namedFns = map[string]*types.Func{}
+	}
+	vc.namedFns[name] = fn
+	return Term{name, SInt}
+}
+
 // funcValueCall models a call through a function-typed value whose body is
 // unknown here: the result is an uninterpreted function of (closure, args);
 // the callee is assumed not to modify the heap (stated in the evidence).
@@ -1183,6 +1202,14 @@ func (f *Frame) funcValueCall(st *State, call *ast.CallExpr) []Term {
 	sig, ok := f.typeOf(call.Fun).Underlying().(*types.Signature)
 	if !ok {
 		vc.fail(call.Pos(), "call of a non-function value")
+	}
+	if nfn, known := vc.namedFns[fv.S]; known {
+		fi := vc.prog.funcInfo(nfn)
+		var argv []Term
+		for i, a := range call.Args {
+			argv = append(argv, f.convert(f.expr(st, a), f.typeOf(a), sig.Params().At(i).Type()))
+		}
+		return f.invoke(st, fi, argv, f.tsub, call.Pos())
 	}
 	if ci, known := vc.closureLits[fv.S]; known {
 		// a function literal of the function under verification, passed down to an inlined model: run its body
